@@ -9,6 +9,8 @@ import (
 	"github.com/sirupsen/logrus"
 
 	"github.com/form3tech-oss/f1/v2/internal/metrics"
+	"github.com/form3tech-oss/f1/v2/internal/verifshim/vctx"
+	"github.com/form3tech-oss/f1/v2/internal/verifshim/vrt"
 )
 
 type discardHandler struct{}
@@ -31,3 +33,25 @@ func DiscardLogrus() *logrus.Logger {
 // T.Time records its stage metric into the process-wide metrics instance, which
 // f1.New initialises; without it every T.Time call in a harness would panic.
 func init() { metrics.Init(true) }
+
+// StopWhenDone plays the caller's side of a pool whose contract is "call Stop
+// once the context Start returned has ended" (a refactoring may move the pool's
+// own watcher goroutine to the caller, as api.NewIterationWorker would then do):
+// if pool has an exported Stop method, a thread waits for ctx and calls it, and
+// the returned function blocks until that call has returned (the trigger
+// function returning, which Run.run waits for before it waits for completion).
+// With the pool as it is in the repository nothing is started and the returned
+// function returns at once.
+func StopWhenDone(ctx vctx.Context, pool any) (wait func()) {
+	st, ok := pool.(interface{ Stop() })
+	if !ok {
+		return func() {}
+	}
+	done := false
+	vrt.GoNamed("caller-stop", func() {
+		vrt.Recv(ctx.Done())
+		st.Stop()
+		done = true
+	})
+	return func() { vrt.WaitUntil("caller-stop-returned", func() bool { return done }) }
+}
